@@ -454,23 +454,116 @@ pub fn generate(tier: &str, seed: u64, only: Option<&str>) -> Vec<Case> {
     cases
 }
 
-pub fn main(tier: &str, seed: u64, only: Option<&str>) {
-    use std::io::Write;
-    let cases = generate(tier, seed, only);
-    let stdout = std::io::stdout();
-    let mut w = std::io::BufWriter::new(stdout.lock());
+/// A valid frame of exactly `len` bytes whose padding is one run (compact on the line protocol).
+pub fn run_frame(kind: &str, len: usize, c: u8) -> Vec<u8> {
+    let (pre, post) = if is_call(kind) {
+        (r#"{"method":"x.A","parameters":{"v":""#, r#""}}"#)
+    } else {
+        (r#"{"parameters":{"name":""#, r#""}}"#)
+    };
+    let n = len.saturating_sub(pre.len() + post.len());
+    let mut v = pre.as_bytes().to_vec();
+    v.extend(std::iter::repeat(c).take(n));
+    v.extend_from_slice(post.as_bytes());
+    v
+}
+
+/// Scenario `rx-bounds` (C17 inbound): lone frames with wire sizes around every multiple of the
+/// growth step and around the limit, and unterminated input, under several chunkings.
+pub fn generate_bounds(o: &Opts) -> Vec<Case> {
+    let thorough = o.thorough();
+    let limit = o.limit;
+    let mut rng = Rng::new(o.seed ^ 0x7262);
+    let mut sizes_list: Vec<usize> = vec![];
+    let kmax = limit / 256;
+    for k in 1..=kmax + 2 {
+        if !thorough && !(k <= 3 || k % 61 == 0 || k + 3 >= kmax) {
+            continue;
+        }
+        for d in [-2i64, -1, 0, 1, 2] {
+            sizes_list.push(((256 * k) as i64 + d) as usize);
+        }
+    }
+    for n in limit - 3..=limit + 3 {
+        sizes_list.push(n);
+    }
+    for _ in 0..(if thorough { 200 } else { 20 }) {
+        sizes_list.push(rng.range(45, limit + 600));
+    }
+    sizes_list.sort();
+    sizes_list.dedup();
+    let mut cases = vec![];
+    let nchunk = if thorough { 5 } else { 2 };
+    for (i, &wire) in sizes_list.iter().enumerate() {
+        if wire < 45 {
+            continue;
+        }
+        for ch in 0..nchunk {
+            let kind = if (i + ch) % 2 == 0 { "cM1" } else { "rP1E1" };
+            let f = run_frame(kind, wire - 1, b'a' + (i % 26) as u8);
+            let stream = stream_of(&[f.clone()]);
+            let ncuts = match ch { 0 => 0, 1 => 1, _ => rng.range(1, 5) };
+            let mut cuts: Vec<usize> = (0..ncuts).map(|_| rng.range(1, stream.len() - 1)).collect();
+            if ch == 1 {
+                // cut right before the terminator
+                cuts = vec![stream.len() - 1];
+            }
+            cuts.sort();
+            cuts.dedup();
+            let sizes = match ch { 0 => vec![], 2 => vec![rng.range(1, 300); 64], _ => (0..8).map(|_| rng.range(1, 1000)).collect() };
+            let mode = 1 + (ch % 2) as u8;
+            let evs = events_for(&stream, &cuts, mode, 1, &mut rng);
+            cases.push(Case { kind: kind.to_string(), frames: vec![f], sizes, evs });
+        }
+    }
+    // unterminated input of at least `limit` bytes, never closed / closed
+    for extra in [0usize, 1, 300] {
+        for closed in [false, true] {
+            let garbage: Vec<u8> = std::iter::repeat(b'x').take(limit + extra).collect();
+            let mut evs = vec![Ev::P, Ev::Arrive(garbage[..limit / 2].to_vec()), Ev::Q, Ev::Arrive(garbage[limit / 2..].to_vec())];
+            if closed {
+                evs.push(Ev::Close);
+            }
+            evs.push(Ev::Q);
+            evs.push(Ev::P);
+            cases.push(Case { kind: "cM1".into(), frames: vec![garbage], sizes: vec![], evs });
+        }
+    }
+    cases
+}
+
+pub fn main_bounds(o: &Opts) {
+    let cases = generate_bounds(o);
+    let mut em = Emitter::new(o.index);
     for c in &cases {
-        let outs = run_case(c);
-        // Independent oracle (implementation vs serde_json), reported on a separate line kind.
-        writeln!(w, "{}", case_line(c, &outs)).unwrap();
-        if is_call(&c.kind) {
-            for f in &c.frames {
-                let r = reference(&c.kind, f);
-                let i = independent_call_verdict(&c.kind, f).unwrap();
-                if r != i {
-                    writeln!(w, "oracle-mismatch rx {} {} ref={} serde_json={}", c.kind, enc_bytes(f), r, i).unwrap();
+        em.case(|| {
+            let outs = run_case(c);
+            // the frame table carries no reference verdict for oversize frames
+            let mut l = case_line(c, &outs);
+            l.replace_range(0..2, "rxb");
+            vec![l]
+        });
+    }
+}
+
+pub fn main(o: &Opts) {
+    let cases = generate(&o.tier, o.seed, o.only.as_deref());
+    let mut em = Emitter::new(o.index);
+    for c in &cases {
+        em.case(|| {
+            let outs = run_case(c);
+            let mut ls = vec![case_line(c, &outs)];
+            // Independent oracle (implementation vs serde_json), reported on a separate line kind.
+            if is_call(&c.kind) {
+                for f in &c.frames {
+                    let r = reference(&c.kind, f);
+                    let i = independent_call_verdict(&c.kind, f).unwrap();
+                    if r != i {
+                        ls.push(format!("oracle-mismatch rx {} {} ref={} serde_json={}", c.kind, enc_bytes(f), r, i));
+                    }
                 }
             }
-        }
+            ls
+        });
     }
 }
